@@ -481,3 +481,31 @@ Proof.
   - rewrite <- strip_nil at 1. rewrite map_nth. exact Hlast.
   - intros j Hj. rewrite <- Hlast. now apply unique_stripped_spec.
 Qed.
+
+(** Every line of a text that ends with a newline ends with a newline. *)
+Lemma readlines_lf_all_end s : ends_lf s = true -> Forall (fun l => ends_lf l = true) (readlines_lf s).
+Proof.
+  induction s as [|c r IH]; [discriminate|]. intros He.
+  destruct r as [|c' r'].
+  - cbn in He. apply N.eqb_eq in He. subst. repeat constructor.
+  - assert (Hr : c' :: r' <> []) by discriminate.
+    rewrite ends_lf_cons in He by exact Hr. specialize (IH He).
+    rewrite (readlines_lf_cons c (c' :: r')).
+    destruct (readlines_lf_cons_ne _ Hr) as [l [ls [El Hl]]]. rewrite El in *.
+    destruct (N.eqb c LF).
+    + constructor; [reflexivity|exact IH].
+    + inversion IH; subst. constructor; [|assumption]. now rewrite ends_lf_cons.
+Qed.
+
+(** The repaired setup.cfg writer works on the lines of the text with a final newline supplied. *)
+Lemma cfg_lines_terminated text : text <> [] ->
+  cfg_lines LastLineTerminated text = readlines_lf (ensure_final_lf (univ_nl text)).
+Proof.
+  intros Ht. unfold cfg_lines, readlines.
+  rewrite fix_last_readlines_lf_lines; [reflexivity|]. intros H. apply Ht, univ_nl_nil, H.
+Qed.
+
+Lemma Forall_firstn {A} (P : A -> Prop) n (l : list A) : Forall P l -> Forall P (firstn n l).
+Proof. revert n. induction l as [|x r IH]; intros [|n] H; cbn; try constructor; inversion H; subst; auto. Qed.
+Lemma Forall_skipn {A} (P : A -> Prop) n (l : list A) : Forall P l -> Forall P (skipn n l).
+Proof. revert n. induction l as [|x r IH]; intros [|n] H; cbn; auto. inversion H; subst; auto. Qed.
